@@ -222,7 +222,9 @@ CHECKS = {
               "10 roots (array, static_array, array_ref, views bound by auto&& / auto const&, const and mutable) for D=1..3 is "
               "type-checked by clang; const paths must not yield a modifiable element reference, mutable twins must; every distinct "
               "proxy type reached from a const root must reject assignment, fill, swap and elements()= (one compile-fail TU each); "
-              "views/refs must not be copy-constructible. The path space is finite and enumerated completely, so within the stated "
+              "views/refs must not be copy-constructible; W16.cast: member_cast, reinterpret_array_cast (both forms), element_transformed and "
+              "static_array_cast from const roots (const arrays, array_refs, views of const arrays held by auto&& / auto const& / as temporaries) "
+              "yield read-only elements and from mutable roots writable ones. The path space is finite and enumerated completely, so within the stated "
               "alphabet and depth this is a proof, not a sample."),
         design_ref="DESIGN.md 3/C16, 2.3",
         note=("Trusted: clang 14 front end (overload resolution, instantiation, type printing in diagnostics), the typed alphabet in "
